@@ -53,6 +53,17 @@ OtherFails(ts, c) ==
                 [] cl = "node_values" -> c.mode # "node" \/ \A w \in 1..NW(c) : \A u \in NodesOf(ts) :
                        c.result[w][u + 1] = GeneralNode(ts, c.weights, c.fname, pol, WL(c, w), WR(c, w), u)
                 [] cl = "window_refinement" -> c.mode = "node" \/ Refines(c)}
+    [] c.kind = "traitcov" ->
+         {cl \in {"shape", "values", "window_refinement"} :
+            ~ CASE cl = "shape" -> Len(c.result) = NW(c)
+                [] cl = "values" -> \A w \in 1..NW(c) : \A q \in 1..Len(c.weights[1]) : c.result[w][q] = TraitCov(ts, c.mode, c.weights, q, WL(c, w), WR(c, w))
+                [] cl = "window_refinement" -> Refines(c)}
+    [] c.kind = "grw" ->
+         {cl \in {"shape", "values", "window_refinement"} :
+            ~ CASE cl = "shape" -> Len(c.result) = NW(c)
+                [] cl = "values" -> \A w \in 1..NW(c) : \A i \in 1..Len(c.indexes) :
+                                      c.result[w][i] = Grw(ts, c.mode, c.weights, c.indexes[i], c.centre = 1, pol, WL(c, w), WR(c, w))
+                [] cl = "window_refinement" -> Refines(c)}
     [] c.kind = "gnn" ->
          {cl \in {"shape", "values", "threads"} :
             ~ CASE cl = "shape" -> Len(c.result) = Len(c.focal)
